@@ -200,7 +200,7 @@ def equal_reconstruction(a, b):
     if type(a) is not type(b):
         return False
     if isinstance(a, collections.deque):
-        return a == b and a.maxlen == b.maxlen
+        return a.maxlen == b.maxlen and len(a) == len(b) and all(equal_reconstruction(x, y) for x, y in zip(a, b))
     if isinstance(a, collections.defaultdict):
         return a == b and a.default_factory == b.default_factory
     if isinstance(a, (functools.partial,)):
@@ -208,7 +208,7 @@ def equal_reconstruction(a, b):
     if isinstance(a, BaseException):
         return a.args == b.args
     if isinstance(a, collections.OrderedDict):
-        return list(a.items()) == list(b.items()) or all(equal_reconstruction(x, y) for x, y in zip(a.values(), b.values()))
+        return list(a.keys()) == list(b.keys()) and all(equal_reconstruction(x, y) for x, y in zip(a.values(), b.values()))
     if isinstance(a, (list, tuple)) and not P._is_namedtuple(a):
         return len(a) == len(b) and all(equal_reconstruction(x, y) for x, y in zip(a, b))
     if type(a) is dict:
